@@ -98,7 +98,7 @@ class C13(Prop):
             '(suite flavour: with tags), workers raising from run(), worker-side faults of the caller\'s TestResult (suite), make_tests raising after k sub-suites, '
             'an interrupt at main\'s m-th queue.get(), the caller\'s result raising at main\'s j-th call (stream: status; suite: stop in the abort path); '
             'schedules: quick = every schedule with <= 2 pre-emptions of 6 small base configurations + random / bursty / few-pre-emption schedules of random '
-            'configurations; thorough adds <= 3 pre-emptions for 2 workers and every single fault position. non-trivial = at least 2 workers started; '
+            'configurations; thorough adds every schedule with <= 2 pre-emptions for 2 workers x 2 tests, <= 1 for 3 workers, and every single fault position / interrupt position / make_tests failure position (<= 1 pre-emption). non-trivial = at least 2 workers started; '
             'distinct = distinct input S-expression')
     assumptions = ['threading.Thread start/join, threading.Semaphore(1) and queue.Queue (unbounded FIFO) semantics are modelled (harness/sched.py doubles), not verified',
                    'only operations on the shared queue / semaphore / caller\'s result and thread start/join are scheduling points; a new thread runs up to its first such operation when it is started',
@@ -333,24 +333,24 @@ class C13(Prop):
         t = lambda k='success', tags=(): [k, list(tags)]
         two_suite = ['suite', [[[t(), t('error')], False, []], [[t('skip', [1])], True, []]], None, None, [], tb]
         two_stream = ['stream', [[[t(), t('error')], False, []], [[t('skip')], True, []]], None, None, [], tb]
-        yield from self.systematic([two_suite, two_stream], 3)
+        yield from self.systematic([two_suite, two_stream], 2)
         three = [['suite', [[[t()], False, []], [[t('failure')], False, []], [[], True, []]], None, None, [], tb],
                  ['stream', [[[t()], False, []], [[t('failure')], False, []], [[], True, []]], None, None, [], tb]]
-        yield from self.systematic(three, 2)
-        # every single fault position for 2 workers, <= 2 pre-emptions
+        yield from self.systematic(three, 1)
+        # every single fault position for 2 workers, <= 1 pre-emption
         small_suite = ['suite', [[[t()], False, []], [[t('error')], True, []]], None, None, [], tb]
         small_stream = ['stream', [[[t()], False, []], [[t('error')], True, []]], None, None, [], tb]
         for f in range(12):                       # the caller's StreamResult raises at main's f-th status call
-            yield from self.systematic([small_stream[:4] + [[f], tb]], 2)
+            yield from self.systematic([small_stream[:4] + [[f], tb]], 1)
         for w in range(2):                        # the caller's TestResult raises at worker w's f-th call
             for f in range(12):
                 ws = [[x[0], x[1], [f] if j == w else []] for j, x in enumerate(small_suite[1])]
-                yield from self.systematic([['suite', ws, None, None, [], tb]], 2)
+                yield from self.systematic([['suite', ws, None, None, [], tb]], 1)
         for m in range(5):                        # interrupts, make_tests failures (with a raising stop)
             for base in (small_suite, small_stream):
-                yield from self.systematic([base[:3] + [some(m), [], tb]], 2)
+                yield from self.systematic([base[:3] + [some(m), [], tb]], 1)
                 if m <= 3:
-                    yield from self.systematic([base[:2] + [some(m), None, [], tb]], 2)
+                    yield from self.systematic([base[:2] + [some(m), None, [], tb]], 1)
             yield from self.systematic([small_suite[:2] + [some(2), None, [m % 2], tb]], 1)
 
     # ----- evidence
